@@ -9,49 +9,75 @@
 (*   chk   pipeline.executeStage: isCompleted() test                       *)
 (*   reg   stateMachine.executeStage: pending++, stage recorded            *)
 (*   plan  stage.Plan() on the caller's goroutine, then inline / pool       *)
-(*   exec  stage body (baseStage.execute of the plan tree)                 *)
+(*   op    baseStage.execute(node): the node's operator runs (plan tree of  *)
+(*         the stage, walked in pre-order; the stage body)                 *)
+(*   kids  baseStage.execute(node): the loop over the node's children      *)
 (*   next  completeHandle: NextStages(), one executeStage per child        *)
 (*   fin   completeStage, part under the mutex (state, first error)        *)
 (*   dec   completeStage, pending.Dec() and complete() when it hits zero   *)
 (*   end   the handler returns                                             *)
 (*   mainc Pipeline.Execute's recover: complete(err)                       *)
-(* Deviation switches (both TRUE on the repaired tree):                    *)
+(* Plan tree of a stage (stage.Plan(): PlanNode with Children()): a node   *)
+(* has an operator or none (stage.NewEmptyPlanNode); the operator returns  *)
+(* nil ("ok"), an error ("err"), panics ("panic"), or returns ErrNotFound  *)
+(* on a node built with NewPlanNodeWithIgnore ("ign": the node returns nil *)
+(* without running its children).  The walk is pre-order, the first        *)
+(* failing operator ends it and its error is the outcome of the stage.     *)
+(* Deviation switches (all TRUE on the repaired tree):                     *)
 (*   KeepFirstError   the state machine remembers the first stage error    *)
 (*   RecoverPerStage  executeStage recovers a panic of its own stage       *)
+(*   FirstErrorWins   the child loop of baseStage.execute returns at the   *)
+(*                    first failing child (FALSE: the result of the last   *)
+(*                    child is returned, later siblings still run)         *)
 (***************************************************************************)
 EXTENDS Naturals, Sequences, FiniteSets, TLC
 
-CONSTANTS KeepFirstError, RecoverPerStage
+CONSTANTS KeepFirstError, RecoverPerStage, FirstErrorWins
 
 VARIABLES children,   \* [Stage -> Seq(Stage)]   the stage tree (NextStages)
           root,
           async,      \* [Stage -> BOOLEAN]
-          outcome,    \* [Stage -> {"ok","err","panic"}]
+          outcome,    \* [Stage -> {"tree","planpanic"}]  Plan() returns the plan tree / panics
+          pkids,      \* [PNode -> Seq(PNode)]  children of the plan nodes (all stages, names unique)
+          pout,       \* [PNode -> {"none","ok","err","panic","ign"}]  the node's operator
+          proot,      \* [Stage -> PNode]       root of the stage's plan tree
           stacks,     \* [Thread -> Seq(frame)]
           pending, registered, done, completed, cbCount, cbErr,
           errSeen,    \* first error remembered by the state machine
-          anyErr      \* ghost: some executed stage failed or panicked
+          anyErr,     \* ghost: some executed stage failed or panicked
+          opLog,      \* ghost: [Stage -> Seq(PNode)] operators executed, in order
+          failedSt,   \* ghost: stages one of whose operators failed or panicked
+          lateOp      \* ghost: an operator ran in a stage that had already failed
 
-vars == <<children, root, async, outcome, stacks, pending, registered, done,
-          completed, cbCount, cbErr, errSeen, anyErr>>
+vars == <<children, root, async, outcome, pkids, pout, proot, stacks, pending, registered, done,
+          completed, cbCount, cbErr, errSeen, anyErr, opLog, failedSt, lateOp>>
 
 Stage == DOMAIN children
 Thread == Stage \cup {"main"}
+PNode == DOMAIN pkids
 
-InitWith(ch, rt, as, oc) ==
+\* pl = [kids |-> [PNode -> Seq(PNode)], out |-> [PNode -> operator], root |-> [Stage -> PNode]]
+InitWith(ch, rt, as, oc, pl) ==
   /\ children = ch /\ root = rt /\ async = as /\ outcome = oc
+  /\ pkids = pl.kids /\ pout = pl.out /\ proot = pl.root
   /\ stacks = [t \in (DOMAIN ch) \cup {"main"} |->
                  IF t = "main" THEN << [k |-> "chk", s |-> rt] >> ELSE << >>]
   /\ pending = 0 /\ registered = {} /\ done = {}
   /\ completed = FALSE /\ cbCount = 0 /\ cbErr = FALSE
   /\ errSeen = FALSE /\ anyErr = FALSE
+  /\ opLog = [s \in DOMAIN ch |-> << >>] /\ failedSt = {} /\ lateOp = FALSE
 
 Top(t) == stacks[t][Len(stacks[t])]
 Pop(t) == SubSeq(stacks[t], 1, Len(stacks[t]) - 1)
 Has(t, kind) == t \in DOMAIN stacks /\ stacks[t] # << >> /\ Top(t).k = kind
 Replace(t, f) == [stacks EXCEPT ![t] = Append(Pop(t), f)]
 
-Static == UNCHANGED <<children, root, async, outcome>>
+Static == UNCHANGED <<children, root, async, outcome, pkids, pout, proot>>
+TreeGhosts == <<opLog, failedSt, lateOp>>
+
+\* frame of completeStage(s, err); q: the stage is completed by executeStage's recover (not by one
+\* of the two handlers passed to stage.Execute)
+Fin(s, e, q) == [k |-> "fin", s |-> s, e |-> e, q |-> q]
 
 \* stateMachine.complete(err): CAS on completed, then the callback
 Complete(err) ==
@@ -63,7 +89,7 @@ Chk(t) ==
   /\ Has(t, "chk")
   /\ stacks' = IF completed THEN [stacks EXCEPT ![t] = Pop(t)]
                             ELSE Replace(t, [k |-> "reg", s |-> Top(t).s])
-  /\ UNCHANGED <<pending, registered, done, completed, cbCount, cbErr, errSeen, anyErr>>
+  /\ UNCHANGED <<pending, registered, done, completed, cbCount, cbErr, errSeen, anyErr, TreeGhosts>>
   /\ Static
 
 \* stateMachine.executeStage: pending++, the stage is recorded
@@ -73,50 +99,86 @@ Register(t) ==
      /\ pending' = pending + 1
      /\ registered' = registered \cup {s}
      /\ stacks' = Replace(t, [k |-> "plan", s |-> s])
-  /\ UNCHANGED <<done, completed, cbCount, cbErr, errSeen, anyErr>>
+  /\ UNCHANGED <<done, completed, cbCount, cbErr, errSeen, anyErr, TreeGhosts>>
   /\ Static
 
+\* a panic on thread t while stage s runs on it; below: the frames of t under those of stage s
+PanicStack(t, s, below) ==
+  IF RecoverPerStage
+    THEN \* a stage running inline: executeStage(s) recovers and calls completeStage(s, err) itself;
+         \* a stage running on the pool: the pool's recover calls the stage's errHandle
+         [stacks EXCEPT ![t] = Append(below, Fin(s, TRUE, ~(async[s] /\ t = s)))]
+  ELSE IF t = "main"
+    THEN \* unwinds to Pipeline.Execute's recover; every frame is abandoned
+         [stacks EXCEPT ![t] = << [k |-> "mainc", s |-> s] >>]
+    ELSE \* unwinds to the pool's recover, which calls the errHandle of the
+         \* goroutine's own stage (= t); frames above it are abandoned
+         [stacks EXCEPT ![t] = << Fin(t, TRUE, FALSE) >>]
+
 \* stage.Plan() is evaluated on the CALLER's goroutine (argument of stage.Execute), then
-\* stage.Execute runs the body inline or submits it to the pool
+\* stage.Execute runs the body (baseStage.execute of the plan's root) inline or submits it to the pool
 Plan(t) ==
   /\ Has(t, "plan")
   /\ LET s == Top(t).s IN
      IF outcome[s] = "planpanic"
        THEN /\ anyErr' = TRUE
-            /\ stacks' = IF RecoverPerStage
-                            THEN Replace(t, [k |-> "fin", s |-> s, e |-> TRUE])
-                          ELSE IF t = "main"
-                            THEN [stacks EXCEPT ![t] = << [k |-> "mainc", s |-> s] >>]
-                            ELSE [stacks EXCEPT ![t] = << [k |-> "fin", s |-> t, e |-> TRUE] >>]
+            /\ stacks' = IF RecoverPerStage THEN Replace(t, Fin(s, TRUE, TRUE)) ELSE PanicStack(t, s, Pop(t))
        ELSE /\ UNCHANGED anyErr
             /\ stacks' = IF async[s]
-                            THEN [stacks EXCEPT ![t] = Pop(t), ![s] = << [k |-> "exec", s |-> s] >>]
-                            ELSE Replace(t, [k |-> "exec", s |-> s])
+                            THEN [stacks EXCEPT ![t] = Pop(t), ![s] = << [k |-> "op", s |-> s, n |-> proot[s]] >>]
+                            ELSE Replace(t, [k |-> "op", s |-> s, n |-> proot[s]])
+  /\ UNCHANGED <<pending, registered, done, completed, cbCount, cbErr, errSeen, TreeGhosts>>
+  /\ Static
+
+\* ------------------------------------------------ baseStage.execute(node): the plan tree walk
+IsWalk(f) == f.k \in {"op", "kids"}
+\* the frames of thread t below the walk of the plan tree that is on top of its stack
+Unwound(t) ==
+  LET st == stacks[t]
+      below == {j \in 1..Len(st) : ~IsWalk(st[j])}
+      base == IF below = {} THEN 0 ELSE CHOOSE j \in below : \A j2 \in below : j2 <= j
+  IN SubSeq(st, 1, base)
+
+\* execute(node) of the frame on top of t returns (r: with an error)
+RetStack(t, r) ==
+  LET f == Top(t)  s == f.s IN
+  IF f.n = proot[s]
+    THEN \* baseStage.Execute: errHandle(err) / completeHandle()
+         Replace(t, IF r THEN Fin(s, TRUE, FALSE) ELSE [k |-> "next", s |-> s, i |-> 1])
+  ELSE IF r /\ FirstErrorWins
+    THEN \* `if err := stage.execute(child); err != nil { return err }` at every level
+         [stacks EXCEPT ![t] = Append(Unwound(t), Fin(s, TRUE, FALSE))]
+    ELSE \* back in the parent's loop (deviation: the parent remembers the result of this child only)
+         LET st == Pop(t)  par == st[Len(st)] IN
+         [stacks EXCEPT ![t] = Append(SubSeq(st, 1, Len(st) - 1), [par EXCEPT !.e = r])]
+
+\* the node's operator (planNode.ExecuteWithStats); a node without operator does nothing
+OpRun(t) ==
+  /\ Has(t, "op")
+  /\ LET s == Top(t).s  n == Top(t).n  o == pout[n]
+         bad == o \in {"err", "panic"} IN
+     /\ opLog' = IF o = "none" THEN opLog ELSE [opLog EXCEPT ![s] = Append(@, n)]
+     /\ lateOp' = (lateOp \/ (o # "none" /\ s \in failedSt))
+     /\ failedSt' = IF bad THEN failedSt \cup {s} ELSE failedSt
+     /\ anyErr' = (anyErr \/ bad)
+     /\ stacks' = CASE o \in {"none", "ok"} ->
+                         IF pkids[n] = << >> THEN RetStack(t, FALSE)
+                         ELSE Replace(t, [k |-> "kids", s |-> s, n |-> n, i |-> 1, e |-> FALSE])
+                    [] o = "ign" -> RetStack(t, FALSE)     \* ErrNotFound on an IgnoreNotFound node: nil, children skipped
+                    [] o = "err" -> RetStack(t, TRUE)
+                    [] o = "panic" -> PanicStack(t, s, Unwound(t))
   /\ UNCHANGED <<pending, registered, done, completed, cbCount, cbErr, errSeen>>
   /\ Static
 
-\* the stage body
-Exec(t) ==
-  /\ Has(t, "exec")
-  /\ LET s == Top(t).s IN
-     CASE outcome[s] = "ok" ->
-            /\ stacks' = Replace(t, [k |-> "next", s |-> s, i |-> 1])
-            /\ UNCHANGED anyErr
-       [] outcome[s] = "err" ->
-            /\ stacks' = Replace(t, [k |-> "fin", s |-> s, e |-> TRUE])
-            /\ anyErr' = TRUE
-       [] outcome[s] = "panic" ->
-            /\ anyErr' = TRUE
-            /\ IF RecoverPerStage
-                 THEN \* executeStage(s) recovers: completeStage(s, err)
-                      stacks' = Replace(t, [k |-> "fin", s |-> s, e |-> TRUE])
-                 ELSE IF t = "main"
-                 THEN \* unwinds to Pipeline.Execute's recover; every frame is abandoned
-                      stacks' = [stacks EXCEPT ![t] = << [k |-> "mainc", s |-> s] >>]
-                 ELSE \* unwinds to the pool's recover, which calls the errHandle of the
-                      \* goroutine's own stage (= t); frames above it are abandoned
-                      stacks' = [stacks EXCEPT ![t] = << [k |-> "fin", s |-> t, e |-> TRUE] >>]
-  /\ UNCHANGED <<pending, registered, done, completed, cbCount, cbErr, errSeen>>
+\* the loop over node.Children()
+Kids(t) ==
+  /\ Has(t, "kids")
+  /\ LET f == Top(t) IN
+     stacks' = IF f.i <= Len(pkids[f.n])
+                 THEN [stacks EXCEPT ![t] = Append(Append(Pop(t), [f EXCEPT !.i = f.i + 1]),
+                                                   [k |-> "op", s |-> f.s, n |-> pkids[f.n][f.i]])]
+                 ELSE RetStack(t, f.e)
+  /\ UNCHANGED <<pending, registered, done, completed, cbCount, cbErr, errSeen, anyErr, TreeGhosts>>
   /\ Static
 
 \* completeHandle: plan the children one by one, then complete the stage itself
@@ -126,8 +188,8 @@ Next1(t) ==
      stacks' = IF i <= Len(children[s])
                  THEN [stacks EXCEPT ![t] = Append(Append(Pop(t), [k |-> "next", s |-> s, i |-> i + 1]),
                                                    [k |-> "chk", s |-> children[s][i]])]
-                 ELSE Replace(t, [k |-> "fin", s |-> s, e |-> FALSE])
-  /\ UNCHANGED <<pending, registered, done, completed, cbCount, cbErr, errSeen, anyErr>>
+                 ELSE Replace(t, Fin(s, FALSE, FALSE))
+  /\ UNCHANGED <<pending, registered, done, completed, cbCount, cbErr, errSeen, anyErr, TreeGhosts>>
   /\ Static
 
 \* completeStage under the mutex: stage state, first error
@@ -136,8 +198,8 @@ FinMark(t) ==
   /\ LET s == Top(t).s  e == Top(t).e IN
      /\ done' = done \cup {s}
      /\ errSeen' = (errSeen \/ e)
-     /\ stacks' = Replace(t, [k |-> "dec", s |-> s, e |-> e])
-  /\ UNCHANGED <<pending, registered, completed, cbCount, cbErr, anyErr>>
+     /\ stacks' = Replace(t, [k |-> "dec", s |-> s, e |-> e, q |-> Top(t).q])
+  /\ UNCHANGED <<pending, registered, completed, cbCount, cbErr, anyErr, TreeGhosts>>
   /\ Static
 
 \* completeStage after the mutex: pending.Dec() == 0 => complete(err)
@@ -148,14 +210,14 @@ FinDec(t) ==
      /\ IF pending - 1 = 0
           THEN Complete(IF KeepFirstError THEN errSeen ELSE e)
           ELSE UNCHANGED <<completed, cbCount, cbErr>>
-     /\ stacks' = Replace(t, [k |-> "end", s |-> s])
-  /\ UNCHANGED <<registered, done, errSeen, anyErr>>
+     /\ stacks' = Replace(t, [k |-> "end", s |-> s, q |-> Top(t).q])
+  /\ UNCHANGED <<registered, done, errSeen, anyErr, TreeGhosts>>
   /\ Static
 
 FinEnd(t) ==
   /\ Has(t, "end")
   /\ stacks' = [stacks EXCEPT ![t] = Pop(t)]
-  /\ UNCHANGED <<pending, registered, done, completed, cbCount, cbErr, errSeen, anyErr>>
+  /\ UNCHANGED <<pending, registered, done, completed, cbCount, cbErr, errSeen, anyErr, TreeGhosts>>
   /\ Static
 
 \* Pipeline.Execute's deferred recover
@@ -163,14 +225,15 @@ MainComplete ==
   /\ Has("main", "mainc")
   /\ Complete(TRUE)
   /\ stacks' = [stacks EXCEPT !["main"] = << >>]
-  /\ UNCHANGED <<pending, registered, done, errSeen, anyErr>>
+  /\ UNCHANGED <<pending, registered, done, errSeen, anyErr, TreeGhosts>>
   /\ Static
 
-Step(t) == Chk(t) \/ Register(t) \/ Plan(t) \/ Exec(t) \/ Next1(t) \/ FinMark(t) \/ FinDec(t) \/ FinEnd(t)
+Step(t) == Chk(t) \/ Register(t) \/ Plan(t) \/ OpRun(t) \/ Kids(t) \/ Next1(t) \/ FinMark(t) \/ FinDec(t) \/ FinEnd(t)
 Next == (\E t \in Thread : Step(t)) \/ MainComplete
 
 Quiescent == \A t \in Thread : stacks[t] = << >>
-NoPanic == \A s \in Stage : outcome[s] \notin {"panic", "planpanic"}
+NoPanic == /\ \A s \in Stage : outcome[s] # "planpanic"
+           /\ \A n \in PNode : pout[n] # "panic"
 
 \* ---------------------------------------------------------------- C19
 AtMostOnce == cbCount <= 1
@@ -183,4 +246,28 @@ ExactlyOnceAtEnd == Quiescent => cbCount = 1
 PendingSane == RecoverPerStage =>
                  pending = Cardinality(registered \ done) + Cardinality({t \in Thread : Has(t, "dec")})
 Terminates == <>(Quiescent /\ cbCount = 1)
+
+\* ---------------------------------------------------------------- C19, plan tree of a stage
+\* reference: the operators of the subtree of n in pre-order (an ignored not-found prunes its subtree)
+RECURSIVE RefOrder(_), RefKids(_, _)
+RefOrder(n) == (IF pout[n] = "none" THEN << >> ELSE << n >>)
+                 \o (IF pout[n] = "ign" THEN << >> ELSE RefKids(n, 1))
+RefKids(n, i) == IF i > Len(pkids[n]) THEN << >> ELSE RefOrder(pkids[n][i]) \o RefKids(n, i + 1)
+\* ... cut after the first operator that fails or panics
+RefRun(s) ==
+  LET ro == RefOrder(proot[s])
+      bad == {i \in 1..Len(ro) : pout[ro[i]] \in {"err", "panic"}} IN
+  IF bad = {} THEN ro ELSE SubSeq(ro, 1, CHOOSE i \in bad : \A j \in bad : i <= j)
+RefFails(s) == \E i \in 1..Len(RefRun(s)) : pout[RefRun(s)[i]] \in {"err", "panic"}
+
+\* operators run in pre-order, each at most once, none after the first failure
+PreOrderOK == \A s \in Stage : /\ Len(opLog[s]) <= Len(RefRun(s))
+                               /\ opLog[s] = SubSeq(RefRun(s), 1, Len(opLog[s]))
+NoOpAfterFailure == ~lateOp
+\* a failure of an operator is the outcome of its stage: the state machine has seen an error once the stage is marked
+FailureIsOutcome == (failedSt \cap done # {}) => errSeen
+\* a stage is completed only when its walk is over (to the end, or to the first failure)
+WalkComplete == RecoverPerStage =>
+                  \A s \in done : outcome[s] = "tree" => /\ opLog[s] = RefRun(s)
+                                                         /\ RefFails(s) = (s \in failedSt)
 =============================================================================
